@@ -28,6 +28,7 @@ def run(c):
     r5(c, db)
     r6(c)
     r7(c)
+    r8(c)
 
 
 def hw_chains_in_python(repo):
@@ -582,3 +583,42 @@ def r7(c):
                    "can be imported first depends on the order rulebooks are loaded in", key_text="cycle:" + "+".join(cy))
     if not bad:
         c.holds("C18.R7", "annet/rulebook", "vendor-logic-import-graph", f"{len(logic)} modules, no cycle")
+
+
+def r8(c):
+    """the vendor of a model is whatever the registry says *now*: nothing between the model string and Registry.match may remember an earlier answer"""
+    from rules.c20 import hidden_state_sites, module_level_names
+    repo = c.repo
+    c.rule("C18.R8", "resolution is stateless and failures are not memoised: (a) no function of annet.hardware / annet.vendors.* writes module-level or class-level state (the only "
+                     "mutable table is the registry's own per-instance vendor table, filled by registration) — a memo model -> vendor in front of Registry.match would keep the "
+                     "answer given before a more specific vendor was registered; (b) the provider's text/rulebook caches only ever store results: no store of a None/placeholder "
+                     "value into a `*_cache` attribute (a remembered miss makes the second lookup return the placeholder instead of raising or retrying)")
+    mods = [n for n in sorted(repo.modules) if n == "annet.hardware" or n.startswith("annet.vendors")]
+    c.floor("C18.R8", "modules on the model -> vendor path", len(mods), 5)
+    nfun = 0
+    for mn in mods:
+        m = repo.module(mn)
+        funcs = [n for n in ast.walk(m.tree) if isinstance(n, ast.FunctionDef)]
+        nfun += len(funcs)
+        sites = hidden_state_sites(m.tree, funcs, module_level_names(m.tree))
+        for node, what in sites:
+            c.violated("C18.R8", repo.loc(m, node), f"{mn.split('annet.', 1)[-1]}:{what}", f"{what}: the vendor / hardware answer for a model then depends on what was asked or registered before",
+                       key_text=what)
+        if not sites:
+            c.holds("C18.R8", m.rel, mn, f"{len(funcs)} functions, no module-level or class-level state written", trivial=len(funcs) < 2)
+    c.count("functions", nfun)
+    rm = repo.module("annet.rulebook")
+    cls = repo.cls("annet.rulebook", "DefaultRulebookProvider")
+    stores = 0
+    for f in [x for x in cls.body if isinstance(x, ast.FunctionDef)]:
+        for n in walk_no_nested(f):
+            if isinstance(n, ast.Assign):
+                for t in n.targets:
+                    if isinstance(t, ast.Subscript) and "_cache" in norm(t.value):
+                        stores += 1
+                        v = n.value
+                        bad = isinstance(v, ast.Constant) and (v.value is None or v.value is False or v.value == "")
+                        c.check("C18.R8", not bad, repo.loc(rm, n), f"DefaultRulebookProvider.{f.name}/cache-store:{norm(t.value)}", f"`{norm(n)[:70]}` stores a placeholder in the cache: the next "
+                                "request for the same key finds an entry and returns the placeholder (a text that could not be read the first time is `None` the second time, "
+                                "and Mako fails on it) — loading then depends on the provider's history", key_text="cache-placeholder")
+    c.floor("C18.R8", "provider cache stores", stores, 3)
